@@ -847,6 +847,12 @@ func simplifyAtoms(atoms []string) []string {
 // Accepts lists the non-failing returns with the branch conditions that lead
 // to them: "accept when ..." / "forward →callee when ...".
 func (f *FuncFacts) Accepts() []*Guard {
+	return mergeExits(f.AcceptsRaw())
+}
+
+// AcceptsRaw: one exit per return (the hand-written protocol rows and the BIP9 edge extraction
+// read the individual returns; the conformance tables compare the merged exits).
+func (f *FuncFacts) AcceptsRaw() []*Guard {
 	rejEdge, _ := f.rejEdges()
 	var out []*Guard
 	plainAccept := false
@@ -914,6 +920,125 @@ func (f *FuncFacts) Accepts() []*Guard {
 		out = append(out, &Guard{Fn: funcName(f.fn), Atoms: atoms, Code: kind, Pos: f.retPos(ri), blk: ri.blk})
 	}
 	return out
+}
+
+// mergeExits: several returns that hand back the same thing are one exit under the disjunction of
+// their conditions — `case A: return v; case B: return v` is `case A, B: return v`, and a return
+// duplicated into two branches is the return after their join. What was done before each return is
+// in the guards and effects; the exit records when the function succeeds with which result.
+func mergeExits(in []*Guard) []*Guard {
+	by := map[string][]*Guard{}
+	var order []string
+	for _, g := range in {
+		if _, ok := by[g.Code]; !ok {
+			order = append(order, g.Code)
+		}
+		by[g.Code] = append(by[g.Code], g)
+	}
+	var out []*Guard
+	for _, code := range order {
+		gs := by[code]
+		if len(gs) < 2 || code == "accept" {
+			out = append(out, gs...)
+			continue
+		}
+		// common conjuncts
+		cnt := map[string]int{}
+		for _, g := range gs {
+			seen := map[string]bool{}
+			for _, a := range g.Atoms {
+				if !seen[a] {
+					seen[a] = true
+					cnt[a]++
+				}
+			}
+		}
+		var common []string
+		for a, n := range cnt {
+			if n == len(gs) && a != "always" {
+				common = append(common, a)
+			}
+		}
+		isCommon := map[string]bool{}
+		for _, a := range common {
+			isCommon[a] = true
+		}
+		var alts [][]string
+		unconditional := false
+		for _, g := range gs {
+			var rest []string
+			for _, a := range g.Atoms {
+				if a != "always" && !isCommon[a] {
+					rest = append(rest, a)
+				}
+			}
+			if len(rest) == 0 {
+				unconditional = true
+				break
+			}
+			if len(rest) == 1 {
+				if parts, ok := splitOrAtom(rest[0]); ok {
+					for _, p := range parts {
+						alts = append(alts, []string{p})
+					}
+					continue
+				}
+			}
+			alts = append(alts, rest)
+		}
+		atoms := append([]string{}, common...)
+		if !unconditional {
+			if d := renderDNF(simplifyDNF(alts)); d != "true" {
+				atoms = append(atoms, d)
+			}
+		}
+		atoms = simplifyAtoms(atoms)
+		if len(atoms) == 0 {
+			atoms = []string{"always"}
+		}
+		m := *gs[0]
+		m.Atoms = atoms
+		out = append(out, &m)
+	}
+	return out
+}
+
+// splitOrAtom splits "(a || b || c)" (the rendering of a short-circuit join) into its alternatives.
+func splitOrAtom(s string) ([]string, bool) {
+	if len(s) < 2 || s[0] != '(' || s[len(s)-1] != ')' {
+		return nil, false
+	}
+	body := s[1 : len(s)-1]
+	depth := 0
+	var parts []string
+	last := 0
+	for i := 0; i < len(body); i++ {
+		switch body[i] {
+		case '(', '[', '{':
+			depth++
+		case ')', ']', '}':
+			depth--
+			if depth < 0 {
+				return nil, false // the outer parentheses do not enclose the whole atom
+			}
+		case ' ':
+			if depth == 0 && strings.HasPrefix(body[i:], " || ") {
+				parts = append(parts, body[last:i])
+				last = i + 4
+				i += 3
+			}
+		}
+	}
+	if depth != 0 || last == 0 {
+		return nil, false
+	}
+	parts = append(parts, body[last:])
+	for _, p := range parts {
+		if strings.Contains(p, " && ") {
+			return nil, false
+		}
+	}
+	return parts, true
 }
 
 // phiExits: a return whose (single non-error) result is a phi placed in the returning block — the
